@@ -63,6 +63,8 @@ static MODE: AtomicU8 = AtomicU8::new(0);
 static FREE_P: AtomicU32 = AtomicU32::new(24);
 /// Progress indicator for the watchdog (steps in TOKEN mode, ops in FREE mode).
 pub static PROGRESS: AtomicU64 = AtomicU64::new(0);
+/// Generation wraps that happened inside a writer's debt walk (i.e. in its nested replacement load).
+pub static WRAPS_IN_PAYALL: AtomicU64 = AtomicU64::new(0);
 /// Global per-site hit counters (flushed from the per-thread ones).
 static SITE_HITS: [AtomicU64; NSITES] = {
     #[allow(clippy::declare_interior_mutable_const)]
@@ -196,6 +198,8 @@ pub fn step(site: u16) {
         crate::runner::payall_mark(true);
     } else if site == arc_swap::verif::Site::PAYALL_END as u16 {
         crate::runner::payall_mark(false);
+    } else if site == arc_swap::verif::Site::HELPING_WRAP as u16 && crate::runner::in_payall() {
+        WRAPS_IN_PAYALL.fetch_add(1, Relaxed);
     }
     if m == 1 {
         free_step(site);
@@ -316,6 +320,15 @@ pub struct Inner {
     pub nthreads: usize,
     pub record: bool,
     pub trace: Vec<(u8, u16)>,
+    /// Scheduler-level freeze: at global step `freeze_at` (0 = never) every thread except
+    /// `freeze_who` stays parked at its current step point until `end_solo`.
+    pub freeze_at: u64,
+    pub freeze_who: usize,
+    pub freeze_done: bool,
+    pub freeze_reset_steps: bool,
+    pub freeze_budget: u32,
+    pub solo_fresh: bool,
+    pub frozen_sites: Vec<(usize, u16)>,
 }
 
 pub struct Tok {
@@ -351,6 +364,13 @@ static TOK: Tok = Tok {
         nthreads: 0,
         record: false,
         trace: Vec::new(),
+        freeze_at: 0,
+        freeze_who: NOT_WORKER,
+        freeze_done: false,
+        freeze_reset_steps: false,
+        freeze_budget: u32::MAX,
+        solo_fresh: false,
+        frozen_sites: Vec::new(),
     }),
 };
 
@@ -391,6 +411,13 @@ pub fn token_prepare(n: usize, sched_seed: u64, strat: Strat, record: bool) {
     inn.nthreads = n;
     inn.record = record;
     inn.trace.clear();
+    inn.freeze_at = 0;
+    inn.freeze_who = NOT_WORKER;
+    inn.freeze_done = false;
+    inn.freeze_reset_steps = false;
+    inn.freeze_budget = u32::MAX;
+    inn.solo_fresh = false;
+    inn.frozen_sites.clear();
     inn.changes.clear();
     for p in inn.prio.iter_mut() {
         *p = 0;
@@ -575,11 +602,38 @@ fn token_step(site: u16) {
     if inn.record && inn.trace.len() < 20000 {
         inn.trace.push((me as u8, site));
     }
+    if inn.freeze_at != 0 && !inn.freeze_done && inn.nsteps >= inn.freeze_at && inn.solo == NOT_WORKER {
+        let w = inn.freeze_who;
+        let st = TOK.status[w].load(Relaxed);
+        if st == ST_RUNNABLE || st == ST_BLOCKED {
+            inn.freeze_done = true;
+            inn.solo = w;
+            inn.solo_fresh = true;
+            inn.frozen_sites = (0..inn.nthreads)
+                .filter(|&t| t != w && TOK.status[t].load(Relaxed) == ST_RUNNABLE)
+                .map(|t| (t, if t == me { site } else { inn.last_site[t] }))
+                .collect();
+        }
+    }
     let next = pick(inn, me);
     if next != me {
         inn.switches += 1;
         TOK.cur.store(next, Release);
         wait_for(me);
+    }
+    if inn.solo_fresh && inn.solo == me {
+        // first step of the solo thread after the freeze: from here on it runs alone
+        inn.solo_fresh = false;
+        if inn.freeze_reset_steps {
+            // the call in progress (if any) is bounded from here on, counted from the freeze
+            OPSTEPS.with(|c| c.set(0));
+            let b = inn.freeze_budget;
+            OPLIMIT.with(|c| {
+                if c.get() != u32::MAX {
+                    c.set(b)
+                }
+            });
+        }
     }
 }
 
@@ -704,6 +758,35 @@ pub fn begin_solo() {
     }
 }
 
+/// Arrange a scheduler-level freeze (token holder or controller before the start).
+pub fn set_freeze(at: u64, who: usize, reset_steps: bool, budget: u32) {
+    let inn = unsafe { inner() };
+    inn.freeze_at = at;
+    inn.freeze_who = who;
+    inn.freeze_reset_steps = reset_steps;
+    inn.freeze_budget = budget;
+}
+
+/// No freeze any more (if it has not happened yet); ends a freeze that is in effect.
+pub fn cancel_freeze() {
+    if mode() == Mode::Token && tid() != NOT_WORKER {
+        let inn = unsafe { inner() };
+        inn.freeze_done = true;
+        inn.solo_fresh = false;
+        if inn.solo == tid() {
+            inn.solo = NOT_WORKER;
+        }
+    }
+}
+
+pub fn is_solo() -> bool {
+    mode() == Mode::Token && tid() != NOT_WORKER && unsafe { inner() }.solo == tid()
+}
+
+pub fn frozen_sites() -> Vec<(usize, u16)> {
+    unsafe { inner() }.frozen_sites.clone()
+}
+
 pub fn end_solo() {
     if mode() == Mode::Token && tid() != NOT_WORKER {
         unsafe { inner() }.solo = NOT_WORKER;
@@ -724,6 +807,13 @@ pub fn others_all_finished() -> bool {
     let me = tid();
     let inn = unsafe { inner() };
     (0..inn.nthreads).all(|t| t == me || matches!(TOK.status[t].load(Relaxed), ST_FINISHED | ST_ABSENT))
+}
+
+/// Nobody else can make a real step (everybody else is finished or waits on a harness condition).
+pub fn others_all_idle() -> bool {
+    let me = tid();
+    let inn = unsafe { inner() };
+    (0..inn.nthreads).all(|t| t == me || TOK.status[t].load(Relaxed) != ST_RUNNABLE)
 }
 
 pub fn global_steps() -> u64 {
